@@ -1,0 +1,13 @@
+//go:build verif
+// +build verif
+
+package controllers
+
+// VerifShutdown releases what a controller built by
+// VerifNewUpstreamClusterController holds for its lifetime: the sync queue's
+// goroutines and the controller context (what Run does when its stop channel
+// closes). Verification-only hook (build tag verif).
+func (m *UpstreamClusterController) VerifShutdown() {
+	m.queue.ShutDown()
+	m.cancel()
+}
